@@ -71,6 +71,10 @@ def instrument_hl7apy():
         lookup.add(core.ElementList.__dict__[nm].__code__)
     for nm in ('get_structure', '_parse_structure'):
         lookup.add(core.ElementFinder.__dict__[nm].__func__.__code__)
+    # encoding a textual value orders its highlight ranges (base_datatypes.py:160, an anchor of C19)
+    bd = K.code_objects_of(importlib.import_module('hl7apy.base_datatypes'), EXCLUDE)
+    lookup |= set(bd)
+    K.mark_touch(bd)
     K.mark_lookup(lookup)
     for modname, names in TOUCH.items():
         m = importlib.import_module(modname)
